@@ -401,3 +401,10 @@ func sortedKeys[V any](m map[string]V) []string {
 	sort.Strings(ks)
 	return ks
 }
+
+// addFresh declares the predicate "allocated during the unit's execution"; the nil reference is
+// never an allocated object.
+func (p *Prelude) addFresh() {
+	p.add("(declare-fun fresh$ (Int) Bool)")
+	p.add("(assert (not (fresh$ 0)))")
+}
